@@ -16,26 +16,26 @@ CLAIMS.update({
     'C01': ('Bounded symbolic model checking of the real Optic / SurfaceGroup / SurfaceFactory / Pickup / Solve / Variable code: '
             'building (K<=4 quick, 6 thorough; every surface type; symbolic stop flags) and ONE edit step from an arbitrary K=3 prescription '
             '(inductive step => histories of any length), pairs of edits, pickups, solves; read-back and frame conditions are SMT queries over '
-            'all numeric arguments, decided unsat.',
+            'all numeric arguments, decided unsat. Several marginal-ray-height solves in one lens all hold after one update().',
             'floats as exact reals + IEEE specials; induction over history length is a paper argument on top of the solver-decided step; '
             'K bounded as stated; catalogue materials not involved (IdealMaterial with symbolic index)'),
     'C02': ('Bounded symbolic model checking of RealRays.refract/reflect, CoordinateSystem.localize/globalize, Plane/StandardGeometry '
             'distance and normal, Surface._trace_real orchestration and a 2-surface wiring run: per-surface step contracts from an arbitrary '
             'incoming ray (unit direction, any normal, any indices) are SMT queries (vector Snell law, unit norm, half-space, on-surface, '
-            'nearest root, OPD), decided unsat; induction over surfaces lifts them to any lens of such surfaces.',
+            'nearest root, OPD), decided unsat; induction over surfaces lifts them to any lens of such surfaces. Iterative (Newton-Raphson) surfaces: loop contract of the intersection - a valid ray ends within tolerance or after max_iter steps, also in a bundle with a lost ray (max_iter = 2, one ray geometry in the quick tier).',
             'floats as exact reals; one ray per trace; conic step contract for hits on the vertex sheet; Newton-Raphson geometries only in the thorough tier with a bounded unrolling; tangent rays (d.n = 0) excluded'),
 })
 CLAIMS['C03'] = ('Bounded symbolic model checking of the real RayGenerator / Optic.trace / trace_generic / FieldGroup.get_vig_factor / distribution code: '
     'every legal aperture x field x object x telecentric combination on K<=2 lenses (all numbers symbolic, pupil position from an independent ABCD oracle): '
     'origin, field angle, collinearity with the pupil point, unit direction towards the lens, intensity/OPD/wavelength are SMT queries decided unsat; every illegal '
-    'combination must raise ValueError on all paths; distributions: count, unit disk, shrink-only vignetting for symbolic factors.',
+    'combination must raise ValueError on all paths; distributions: count, unit disk, shrink-only vignetting for symbolic factors. Curved (spherical) object surfaces: height fields start ON the object surface. The random distribution is executed with a stubbed generator (arbitrary r, theta).',
     'floats as exact reals; thickness >= 0; aperture value yields a positive EPD; fields along y; distribution sizes <= 8 (12 thorough); random generator stubbed')
 CLAIMS['C14'] = ('Bounded symbolic model checking of the real OptimizationProblem / OptimizerGeneric / LeastSquares / DualAnnealing / DifferentialEvolution / Variable / Operand code '
     'against a nondeterministic stub of scipy.optimize (documented contract: evaluates the objective at x0 and at <=2 arbitrary points inside the bounds it was given, returns the best; '
     'workers=-1 evaluates on copies): post-state = result.x, merit = result.fun, not worse than start, inside bounds, pickups/solves satisfied, undo restores; merit formula; every variable type is a faithful handle with bounds in value units. All SMT queries over symbolic lens numbers, evaluation points, targets, weights; operands are uninterpreted functions.',
     'scipy optimisers are stubbed by their contract (that they meet it is not checked); operands uninterpreted; <=3 evaluations, <=2 variables, sequences <=4; floats as reals')
 CLAIMS['C16'] = ('Bounded symbolic model checking of RadialAperture.clip, RealRays.propagate (Beer-Lambert), SimpleCoating, Surface._trace_real and a 2-surface Optic: '
-    'step contract from an arbitrary ray/intensity: zero outside the aperture in the surface frame, exp argument -4 pi k d 1e3/lambda, coating factor, nothing else; 0<=i\'<=i; records = ray intensity; RayFan intensities = traced ones (UF tracer).',
+    'step contract from an arbitrary ray/intensity: zero outside the aperture in the surface frame, exp argument -4 pi k d 1e3/lambda, coating factor, nothing else; 0<=i\'<=i; records = ray intensity; RayFan intensities = traced ones (UF tracer). Apertures that were rescaled, re-assigned or reloaded clip at their current radii.',
     'exp axiomatised (positivity, monotonicity, congruence); geometry of the step uninterpreted; planes in the wiring run; floats as reals')
 CLAIMS['C15'] = ('Bounded symbolic model checking of the real Tolerancing / Perturbation / samplers / SensitivityAnalysis.run / MonteCarlo.run / CompensatorOptimizer code: '
     'rows = operands of (nominal + recorded perturbation [+ recorded compensation]), nominal perturbation => nominal values, lens nominal after run() and reset(), sampler cycling and seeded reproducibility; '
@@ -43,7 +43,7 @@ CLAIMS['C15'] = ('Bounded symbolic model checking of the real Tolerancing / Pert
     'numpy RNG stubbed (seeded = function of seed and draw index); scipy stubbed by contract; pandas.DataFrame replaced by a list in symbolic mode; <=2 perturbations x <=3 trials')
 CLAIMS['C13'] = ('Bounded symbolic model checking of frame conditions on the real code: caller-owned arrays keep their values across trace/trace_generic (symbolic vignetting), '
     'prescription snapshot and to_dict() unchanged by paraxial / aberration / trace queries, repeated query = same terms, third call of (A,B,A) equals the first (no stale state or caches), '
-    'ray 0 of a 2-ray batch = the 1-ray trace, SpotDiagram queries leave the stored data untouched (uninterpreted tracer). Equality of symbolic result terms is decided by the solver.',
+    'ray 0 of a 2-ray batch = the 1-ray trace, SpotDiagram queries leave the stored data untouched (uninterpreted tracer). Equality of symbolic result terms is decided by the solver. Field lists declared out of ascending order stay as declared.',
     'what is decided is that the second call computes the same real function of the same state; bit-identity of floats is not claimed; Newton-Raphson batch coupling only in the thorough tier; sequences of <=3 calls, <=3 rays')
 CLAIMS['C19'] = ('Bounded symbolic model checking of Optic.to_dict / from_dict and every registered to_dict/from_dict pair: for K=2 lenses covering each geometry, medium, coating, BSDF, aperture, field/wavelength/unit, '
     'aperture type, telecentric flag, pickup, solve, polarization state - all numeric leaves symbolic - the reloaded lens has a leaf-wise equal dictionary form (solver-decided term equality), equal prescription snapshot, equal paraxial terms and equal ray-trace records; '
@@ -51,17 +51,17 @@ CLAIMS['C19'] = ('Bounded symbolic model checking of Optic.to_dict / from_dict a
     'byte-level float round trip of JSON is CPython repr/float contract (assumed); catalogue Material lookups not symbolic; K=2; numba-compiled BSDF parameters concrete')
 CLAIMS['C20'] = ('Bounded symbolic model checking of the real ZemaxFileReader + ZemaxToOpticConverter + AbbeMaterial on generated .zmx files (UTF-8 and UTF-16) whose numeric tokens are symbolic '
     '(bound through a shadowed float() in the reader): surface count, radii = 1/CURV or infinity, vertex = running sums of DISZ, conic, PARM n -> coefficient n-1, media (model glass n_d/V_d, catalogue glass, air), stop, '
-    'aperture, field type and de-duplicated sorted values, wavelengths and primary, and the paraxial focal length of the written numbers; MODE != SEQ rejected. All SMT queries decided unsat.',
+    'aperture, field type and de-duplicated sorted values, wavelengths and primary, and the paraxial focal length of the written numbers; MODE != SEQ rejected. All SMT queries decided unsat. Two-dimensional field sets (equal y, different x) are imported completely.',
     'files of 1-3 (thorough 6) real surfaces from one generator template (record order as Zemax writes it); mirrors / coordinate breaks not covered; catalogue lookup concrete (one glass)')
 CLAIMS['C10'] = ('Bounded symbolic model checking of the real Zernike classes: for each of the 3 x 120 listed positions the solver inverts the published index rule over symbolic integers (n, m) (no other valid pair maps to that position; QF_NIA), '
     'the radial polynomial equals the three-term-recurrence definition for ALL r (polynomial identity, n <= 12/14), normalisation N^2 (1+[m=0]) = 2n+2 over symbolic integers, poly() linear in symbolic coefficient vectors, '
-    'ZernikeFit._objective zero at the generating coefficients / affine, fits do not disturb each other.',
+    'ZernikeFit._objective zero at the generating coefficients / affine, fits do not disturb each other. A 37-term fit: every coefficient takes part in the objective.',
     'that scipy least_squares returns the minimiser is assumed (stubbed); orthogonality of the radial polynomials is the textbook fact the normalisation check relies on; azimuthal sign convention sin(m phi), m<0, taken from the library')
 CLAIMS['C18'] = ('Bounded symbolic model checking of MaterialFile: each of the nine dispersion formulas with symbolic coefficients (parsed through the real _parse_file from symbolic tokens) and symbolic wavelength equals the refractiveindex.info formula (squared where it is defined on n^2), '
-    'malformed coefficient counts raise, tabulated n/k/nk = clamped linear interpolation of symbolic tables incl. column mapping, scalar = array, abbe(); the name-ranking kernel equals the textbook Levenshtein distance over symbolic characters (|s|<=3); model glass reproduces n_d within 0.02 over the whole glass-map box.',
+    'malformed coefficient counts raise, tabulated n/k/nk = clamped linear interpolation of symbolic tables incl. column mapping, scalar = array, abbe(); the name-ranking kernel equals the textbook Levenshtein distance over symbolic characters (|s|<=3); model glass reproduces n_d within 0.02 over the whole glass-map box. Odd wavelength exponents in formulas 3 and 5.',
     'NOT decided: the enumeration of the 2593 catalogue rows and the pandas substring filter/ranking around the kernel (finite concrete data, not a solver question); exponent coefficients of formulas 3/4/5 enumerated from {-2,0,1,2,4}; 1-3 terms; 2-3 table rows')
 CLAIMS['C17'] = ('Bounded symbolic model checking of JonesFresnel (R+T=1 for s and p with symbolic n1, n2, angle below critical; Brewster; normal incidence), the six polarizers (idempotent Hermitian projectors onto their stated state, for arbitrary complex input), '
-    'retarders (unitary, stated retardance, element(theta) = R(theta) element(0) R(-theta)), the diattenuator rotation identity (fails: known finding F8), one uncoated polarised surface step (|E|^2 preserved, E.k = 0) and the angle of incidence; complex arithmetic as pairs of reals, trigonometry axiomatised with angle-sum rules.',
+    'retarders (unitary, stated retardance, element(theta) = R(theta) element(0) R(-theta)), the diattenuator rotation identity (fails: known finding F8), one uncoated polarised surface step (|E|^2 preserved, E.k = 0) and the angle of incidence; complex arithmetic as pairs of reals, trigonometry axiomatised with angle-sum rules. The polarization matrix after two surfaces is P2 P1 (skew path, arbitrary Jones matrices).',
     'meridional incidence in the quick tier (skew and the unpolarised-mean clause in thorough); quarter/half-wave plates to within 1e-9 because the code carries rounded constants; whole-lens polarised traces are covered only through the per-surface step (induction)')
 CLAIMS['C08'] = ('Bounded symbolic model checking of the real Aberrations / AberrationOperand code on K=1..2 (thorough 3) spherical lenses with all radii, thicknesses, indices, aperture and field symbolic, stop first or second, infinite or finite object: '
     'each per-surface third-order term = Welford surface contribution / (2 n\'u\') (oracle written from curvatures, indices and the paraxial rays), sums = -Welford S_I..S_V, defining identities (TCC=3CC, longitudinal = transverse/(-u\'), accessors, seidels(), operands), '
